@@ -823,7 +823,7 @@ pub fn plans_for(prop: &str, thorough: bool) -> Vec<Plan> {
             });
             plans.push(Plan {
                 name: "F-SEQ x all widths",
-                cases: gen::f_seq(if thorough { 3 } else { 2 }, thorough),
+                cases: gen::f_seq(if thorough { 3 } else { 2 }, false),
                 cfgs: cross(false, |b| vec![b, Cfg { cs: 3, ..b }]),
                 widths: Widths::Classes,
                 ranges: Ranges::None,
@@ -958,7 +958,7 @@ pub fn plans_for(prop: &str, thorough: bool) -> Vec<Plan> {
             });
             plans.push(Plan {
                 name: "F-SEQ (comment separators)",
-                cases: gen::f_seq(if thorough { 3 } else { 2 }, thorough).into_iter().filter(|c| c.meta.comments > 0).collect(),
+                cases: gen::f_seq(if thorough { 3 } else { 2 }, false).into_iter().filter(|c| c.meta.comments > 0).collect(),
                 cfgs: cross(false, |b| vec![b, Cfg { cs: 3, ..b }]),
                 widths: Widths::Classes,
                 ranges: Ranges::None,
